@@ -110,6 +110,8 @@ def ro_case(draw, families=None, exact_only=False, max_cons=4, allow_eq=True, al
             row = {'a0': _vec(draw, nx), 'A': _mat(draw, nx, nw, 0.35) if bilinear else [[0.0] * nw for _ in range(nx)],
                    'b': _vec(draw, ny), 'c': _vec(draw, nw), 'c0': None,
                    'slack': draw(st.sampled_from([0.0, 0.0, 0.5, 1.0, 2.0]))}
+            if not any(row['c']) and draw(st.booleans()):
+                row['explicit_zero'] = True
             if not (any(row['a0']) or any(any(r) for r in row['A']) or any(row['b'])):
                 row['a0'][draw(st.integers(0, nx - 1))] = 1.0      # every row involves a decision
             rows.append(row)
@@ -209,7 +211,11 @@ def _row_expr(row, x, y, z, u, nz, style):
                 if b[k]:
                     expr = add(expr, float(b[k]) * y[k])
     for (rv, cc) in ((z, c[:nz]), (u, c[nz:])):
-        if rv is None or not np.any(cc):
+        if rv is None:
+            continue
+        if not np.any(cc):
+            if row.get('explicit_zero') and rv is z:
+                expr = add(expr, cc @ rv)         # a random term with all-zero coefficients, written out
             continue
         expr = add(expr, cc @ rv if style != 2 else (cc * rv).sum())
     return expr
